@@ -86,6 +86,10 @@ func init() {
 				return "ok"
 			case "get":
 				return fmt.Sprintf("size=%d", m.Get(str(in, "host")))
+			case "mfail":
+				return fmt.Sprintf("size=%d", m.Report(str(in, "host"), num(in, "code", 503)))
+			case "msucc":
+				return fmt.Sprintf("size=%d", m.Report(str(in, "host"), 0))
 			case "hosts":
 				var out []string
 				for k, v := range m.Hosts() {
